@@ -298,7 +298,7 @@ pub fn spawn_broker<R: Responder>(wire: Wire, cfg: ServerCfg, r: R) -> BrokerHan
                                     if let AMQPFrame::Method(_, AMQPClass::Channel(Chan::CloseOk(_))) = &f {
                                         io.closing_channels.remove(&chn);
                                     }
-                                } else if !io.closing {
+                                } else if !io.closing || matches!(&f, AMQPFrame::Method(0, AMQPClass::Connection(Conn::CloseOk(_)))) {
                                     r.on_frame(&mut io, &f)
                                 }
                             }
